@@ -205,14 +205,16 @@ class Interp:
             a = abs(first)
             p = Poly({k: v / (s * a) for k, v in mons.items() if k != ()})
             return repr(p), s * a, mons.get((), Fraction(0))
-        # rational function: split off the constant part when the denominator is a single monomial
-        if len(den.t) == 1:
-            dm, dc = list(den.t.items())[0]
+        # rational function N/D: split off the constant c with N = c*D + R, R free of D's leading monomial, so that
+        # (N/D), (N/D) + 1 and (N/D) - 1 share one key
+        if den.t:
+            dm, dc = sorted(den.t.items(), key=lambda kv: str(kv[0]))[0]
             cpart = n.t.get(dm)
             if cpart is not None:
-                rest = Poly({k: v for k, v in n.t.items() if k != dm})
+                c = cpart / dc
+                rest = n - Poly({k: v * c for k, v in den.t.items()})
                 if not rest.is_zero():
-                    return Rat(rest, den).canon(), Fraction(1), cpart / dc
+                    return Rat(rest, den).canon(), Fraction(1), c
         key = d.canon()
         return key, Fraction(1), Fraction(0)
 
